@@ -8,7 +8,7 @@ LEVEL_TEXT = {}
 THEOREMS = {
     "C03": ["production_branches_agree", "production_nonneg", "production_le_demand", "production_le_capacity",
             "production_le_stock_support", "production_eq_min3", "production_tight"],
-    "C04": ["deliveries_sum", "deliveries_same_ratio_orders", "deliveries_same_ratio_fd", "deliveries_reb_length",
+    "C04": ["Layout.writer_reader_agree", "Layout.blocks_inside", "Layout.blocks_disjoint", "Layout.blocks_cover", "Layout.blocks_partition", "deliveries_sum", "deliveries_same_ratio_orders", "deliveries_same_ratio_fd", "deliveries_reb_length",
             "deliveries_same_ratio_reb", "deliveries_le_asked", "fd_unmet_eq", "fd_unmet_range", "reb_prod_eq"],
     "C05": ["stock_update", "stock_negative_crashes", "stock_nonneg_distribute", "infinite_never_binds",
             "production_ignores_infinite", "stock_nonneg_step", "loop_stops_on_crash", "stock_nonneg_reach"],
@@ -25,15 +25,36 @@ THEOREMS = {
             "overprod_homogeneous", "deliveries_homogeneous", "orders_homogeneous_same_branch", "gapOpen_homogeneous",
             "deltaCap_homogeneous"],
     "C18": ["psi_one_params", "psi_one_step", "psi_one_run", "alt_share_eq_fixed_share", "alt_eq_noalt", "alt_ne_noalt_zero_capacity"],
+    "C09": ["damage_before_recovery", "wake_ledgers", "damage_after", "arb_after", "finished_when_zero", "finished_no_loss",
+            "linear_range", "convexe_range", "linear_antitone", "convexe_antitone", "linear_zero_at_tau",
+            "linear_finished_at_tau", "rounded_range", "rounded_close", "concave_shape"],
+    "C10": ["lifecycle_status", "lifecycle_same_event", "post_status", "status_edges", "status_kind_step", "status_timeline_step",
+            "status_timeline", "shock_in_force", "pending_invisible", "prefix_event_free"],
+    "C11": ["no_internal_error", "ids_lifecycle", "ids_receive", "demand_own_block", "other_blocks_empty", "credit_own_block",
+            "finished_no_more", "aggregates_perm", "rebuild_total_perm", "perm_observables_step_partial",
+            "Layout.writer_reader_agree", "Layout.blocks_inside", "Layout.blocks_disjoint", "Layout.blocks_cover", "Layout.blocks_partition"],
+    "C20": ["psi_above_one_rejected", "schedule_outside_horizon_rejected", "excess_capital_rejected", "negative_capacity_rejected",
+            "params_ok", "init_econ_ok", "tracker_init_ok", "inv_step", "step_quantities_nonneg", "no_silent_failure", "inv_reach"],
+    "C02": ["specDemand_eq", "step_refines_spec", "nextStep_econ"],
+    "C19": ["lifecycle_shift", "recoverOne_shift", "eventsPost_shift", "eventsPre_shift", "shift_step", "overprod_identity_at_rest",
+            "shift_step_early", "shift_run_partial"],
     "C14": ["alpha_bounds", "alpha_increase_only_if_scarce", "alpha_increase_amount", "alpha_no_increase_when_met",
             "alpha_drift_to_base"],
 }
 
 # Lean modules holding them
 MODULES = {pid: [f"Boario.Properties.{pid}"] for pid in THEOREMS}
+MODULES["C11"] = ["Boario.Properties.C11", "Boario.Properties.LayoutThm"]
+MODULES["C04"] = ["Boario.Properties.C04", "Boario.Properties.LayoutThm"]
 
 # scenario streams: (stream name, number of scenarios quick, thorough)
 STREAMS = {
+    "C02": [("shocked", 14, 200), ("shortage", 10, 150), ("multi", 8, 100), ("mild", 6, 80), ("crash", 4, 60)],
+    "C19": [("early", 16, 160), ("multi", 8, 80)],
+    "C09": [("recover", 36, 400), ("multi", 8, 100)],
+    "C10": [("multi", 20, 200), ("recover", 10, 100), ("rebuild", 10, 100)],
+    "C11": [("multi", 30, 300), ("rebuild", 10, 100)],
+    "C20": [("shocked", 12, 100), ("shortage", 8, 80), ("crash", 8, 80), ("multi", 8, 80), ("eventfree", 6, 60), ("excess", 6, 40)],
     "C01": [("eventfree", 40, 400)],
     "C08": [("rebuild", 30, 300), ("multi", 10, 100)],
     "C13": [("units", 24, 200)],
@@ -48,6 +69,12 @@ STREAMS = {
 
 # phases whose correspondence obligations can fail this property's check
 PHASES = {
+    "C02": ["events_pre", "overprod", "production", "distribute", "events_post", "orders"],
+    "C19": ["events_pre", "overprod", "events_post"],
+    "C09": ["events_post"],
+    "C10": ["events_pre", "events_post"],
+    "C11": ["events_pre", "distribute", "events_post"],
+    "C20": ["events_pre", "production", "distribute", "orders"],
     "C01": ["events_pre", "overprod", "production", "distribute", "events_post", "orders"],
     "C08": ["events_pre", "events_post"],
     "C13": ["events_pre", "events_post"],
@@ -62,7 +89,7 @@ PHASES = {
 
 # per-step oracles (names in harness.oracles.PER_STEP) and per-run oracles
 STEP_ORACLES = {pid: [pid] for pid in ("C03", "C04", "C05", "C06", "C07", "C14")}
-STEP_ORACLES.update({"C08": ["C08"], "C09": ["C09"], "C10": ["C10"], "C11": ["C11", "C08"]})
+STEP_ORACLES.update({"C02": ["C02"], "C20": ["C20"], "C08": ["C08"], "C09": ["C09"], "C10": ["C10"], "C11": ["C11", "C08"]})
 
 # per-run oracles, construction obligations, paired-run oracles (names resolved in harness/runner.py)
 RUN_ORACLES = {"C01": ["c01"], "C05": ["c05_run"], "C07": ["c07_capital"], "C08": ["c08_init"], "C11": ["c11_run"]}
@@ -71,6 +98,12 @@ PAIRED = {"C10": ["c10_prefix"], "C11": ["c11_order"], "C13": ["c13_units"], "C1
           "C19": ["c19_shift"], "C17": ["c17_determinism"]}
 
 NONTRIVIAL = {
+    "C02": ("active", "a step with shortage, rationing, a stock change or a ledger change"),
+    "C19": ("after", "a step at or after the first occurrence"),
+    "C09": ("recovering", "a step in which a recovering event's damage changes"),
+    "C10": ("boundary", "a step in which some event changes status or ledger"),
+    "C11": ("overlap", "a step with at least two events simultaneously active"),
+    "C20": ("any", "every simulated step (finiteness and sign of the whole state are checked after every phase)"),
     "C01": ("sparse", "a scenario whose table has an unused input, a zero-output industry, an infinite inventory, or psi = 1 (every step counted)"),
     "C08": ("ledger moves", "a step in which a reconstruction ledger changes"),
     "C13": ("emf != mf", "a step of a scenario with an event whose monetary factor differs from the model's"),
@@ -90,6 +123,18 @@ _NOTE = ("Trusted: Lean kernel; the hand-written model and theorem statements; t
          "Not verified: float rounding, NumPy/pandas primitives, overflow.")
 
 CLAIMS = {
+    "C02": {"text": "Theorem step_refines_spec: whatever the code-shaped model computes in one step satisfies ArioSpec, the documented ARIO equations written one per field with sums and no masks, caches or branches (overproduction rule, capacity, optimal and actual production with the tightest real input, proportional rationing, inventory resupply with the permitted skip, unmet final demand, reconstruction deliveries, order rule with both share variants); nextStep_econ ties it to the whole step, specDemand_eq to the cached demand. The tie to the code is the correspondence itself: every phase, every output, every cell (delivery matrix via the hook) on every explored step, ties of the threshold tests accepted; plus an independent NumPy transliteration of the documentation as oracle.",
+            "note": _NOTE, "technique": "Lean 4 refinement theorem (code-shaped model vs equation-shaped spec) + per-step correspondence of all six phases"},
+    "C19": {"text": "Theorems shift_step (from the third step on, one step of the delayed simulation is the delayed step: the event layer only sees t - occ), shift_step_early + overprod_identity_at_rest (for the first two steps the same holds wherever the overproduction module is the identity, which is the case at rest), shift_run_partial (runs from any state at or after the third step), plus the commuting lemmas of each event phase. Partial: the whole-run statement from t = 0 (chaining these with C01 and C10's prefix theorem) is not proved; it is checked on paired runs of the real code (every event delayed by k = 1..12, first occurrences 1..3).",
+            "note": _NOTE, "technique": "Lean 4 theorems (commutation of the step map with a time shift; run-level from t = 0 partial) + paired runs of the real code"},
+    "C09": {"text": "Theorems damage_before_recovery, damage_after / arb_after (damage in force = rounded recovery function at the elapsed time, for built-ins and user callables alike), finished_when_zero, finished_no_loss, range / antitonicity of the three rational built-ins, linear_zero_at_tau, linear_finished_at_tau, rounded_range / rounded_close, concave_shape (for any monotone g; that k^e is such a g is a fact about real powers outside the rational model). Schedule statements for step length 1. recover_events compared per step on all four curves.",
+            "note": _NOTE, "technique": "Lean 4 theorems + per-step correspondence of EventTracker.recover (concave: raw curve values taken from the code, rounding modelled)"},
+    "C10": {"text": "Theorems lifecycle_status, status_edges, status_kind_step, status_timeline_step and status_timeline (induction over the run: pending / happening / later stage exactly on schedule), shock_in_force, pending_invisible, prefix_event_free (the run with events equals the run without before the earliest occurrence), for step length 1. The life-cycle phase and ledgers compared per step; prefix checked bitwise on paired runs.",
+            "note": _NOTE, "technique": "Lean 4 theorems (induction over steps, simulation of the event-free run) + per-step correspondence of the event phases + paired runs"},
+    "C11": {"text": "Theorems no_internal_error (from the well-formedness invariant, preserved by every step: C20's inv_step), ids_lifecycle / ids_receive (block ids of rebuilding events stay distinct and in range, also when events finish), demand_own_block, other_blocks_empty, credit_own_block, finished_no_more, aggregates_perm, rebuild_total_perm, and the Layout theorems (writer and reader address the same columns; blocks disjoint and covering). Order independence is proved for one step of what the economy sees (perm_observables_step_partial); the run-level statement is checked on paired runs (permuted event lists, three ways of adding events), not proved.",
+            "note": _NOTE, "technique": "Lean 4 theorems (invariant + permutation invariance, run-level order independence partial) + per-step correspondence of the whole event layer + paired runs"},
+    "C20": {"text": "Theorems: the documented rejections that are decision logic of the model (psi above 1, schedule outside the horizon, capital loss above the stock, negative capacity); params_ok / init_econ_ok / tracker_init_ok (constructors establish well-formedness); inv_step and inv_reach (every physical quantity stays non-negative along every run); no_silent_failure (a step ends in ok, the crashed flag or a documented rejection, never another exception). Partial: float overflow is outside the model; the validators that live in pandas/pymrio plumbing (incomplete table, unknown labels, wrong types, record names) are exercised by a malformed-input stream against the real constructors, not modelled.",
+            "note": _NOTE, "technique": "Lean 4 theorems (invariant by induction) + per-step correspondence + malformed-input stream on the real validators + finiteness/sign oracle on every state"},
     "C01": {"text": "Theorems init_at_equilibrium, equilibrium_step, equilibrium_forever (induction over steps), equilibrium_loop: for every balanced non-negative table with non-negative value added, of any size and sparsity (zero-output industries, unused inputs), and every accepted configuration, the event-free run reproduces the equilibrium exactly in the rational model and never rejects, crashes or fails; equilibrium_step_needs_capital_nonneg shows the capital hypothesis is necessary. mkParams and all six phases are compared with the code on event-free runs.",
             "note": _NOTE, "technique": "Lean 4 theorems (fixed point + induction) + correspondence of construction and of every phase on event-free runs"},
     "C08": {"text": "Theorems rebuild_total/_split (creation, any number of rebuilding sectors), rebuild_presented, settle_* (one ledger cell: non-negative, exact up to half a quantum, antitone on the grid), damage_eq, rebuild_antitone_reach (any sequence of deliveries), only_rebuilding_sectors; tracker construction and the ledger phases compared per step. Hypothesis: every (rebuilding sector, affected industry) pair has a supplier (known finding F13 otherwise).",
